@@ -645,15 +645,16 @@ def compare_run(world, cd, table, key, events):
     env_name, nn_ = world.env_name, world.NN
     seen = {}                                       # iid -> {(rew, eff acts)} by content, from the REAL rollouts
     prev_iter = None                                # observation of the previous iteration of the same batch
-    if len(events) != len(h):
-        kinds = [e["a"] for e in events]
-        return [(min(len(events), len(h)) - 1, "C15", "iteration-count",
-                 "the real run took the actions %s, the specification %s" % (kinds, [a[0] for a in h]))]
+    kinds, want_kinds = [e["a"] for e in events], [a[0] for a in h]
+    if kinds != want_kinds:
+        j = next((k for k, (x, y) in enumerate(zip(kinds, want_kinds)) if x != y), min(len(kinds), len(want_kinds)) - 1)
+        if [k for k in kinds if k != "iter"] == [k for k in want_kinds if k != "iter"]:
+            return [(j, "C15", "iteration-count", "the real run took the actions %s, the specification (max_iters %d, run-time limit exceeded "
+                     "after iteration %d) %s" % (kinds, cd["max_iters"], stop, want_kinds))]
+        return [(j, None, "batch-structure", "the real run took the actions %s, the specification %s" % (kinds, want_kinds))]
     for j, (act, e) in enumerate(zip(h, events)):
         spec = table[(focus, stop, h[: j + 1])]
         o = e["obs"]
-        if act[0] != e["a"]:
-            return [(j, "C15", "iteration-count", "real action %s, specification %s" % (e["a"], act[0]))]
         if act[0] == "bstart" and not o["paramsOk"]:
             return [(j, "C15", "parameters-restored-at-batch-start", "batch %d does not start from the original policy parameters" % e["bi"])]
         if act[0] == "iter":
